@@ -666,14 +666,26 @@ def _r4_k(prog: Program, res: Result) -> None:
             src = sub.value
             var = None
             if isinstance(src, ast.Name):
-                defs = [v for (_s, v) in binds.get(src.id, []) if v is not None]
-                if len(defs) != 1:
+                defs = [(s_, v) for (s_, v) in binds.get(src.id, []) if v is not None and getattr(s_, "lineno", 0) < sub.lineno]
+                if not defs:
                     continue
-                var, src = src.id, defs[0]
+                var, src = src.id, max(defs, key=lambda d: d[0].lineno)[1]     # the nearest definition in front of the use
             call = src
             if isinstance(call, ast.Call) and isinstance(call.func, ast.Name) and call.func.id in ("list", "tuple") and call.args:
                 call = call.args[0]
             d = prog.dotted(call.func) if isinstance(call, ast.Call) else None
+            if isinstance(call, ast.Call) and isinstance(call.func, ast.Attribute) and call.func.attr == "splitlines":
+                # lines of a text: "".splitlines() is empty, any other string has a first and a last line
+                n += 1
+                text_e = call.func.value
+                text = short(sub, 90)
+                pa = pa or PathAnalysis(prog, fn)
+                ok = pa.reached(sub) and (pa.holds_at(sub, lambda w, e=text_e: pa.formula(e, w))[0]
+                                          or (var is not None and pa.holds_at(sub, lambda w: pa.formula(sub.value, w))[0]))
+                res.decide(ok, "R4.k", fn.loc(sub), fn.fq, text,
+                           f"`{short(text_e, 30)}` was tested to be non-empty" if ok else
+                           f"`{short(text_e, 30)}` may be the empty string (a deletion, an empty match): its list of lines is empty and the index raises IndexError")
+                continue
             if d not in ("re.findall", "re.finditer") or not call.args:
                 continue
             n += 1
@@ -949,6 +961,10 @@ class ValidPA(PathAnalysis):
 from ..selftest import Variant  # noqa: E402
 
 VARIANTS = [
+    Variant("first-line-of-an-empty-replacement", "FIRE", "processing",
+            "        if new_code and not core.is_valid_python(choice):  # Nothing to indent in a deletion", "        if not core.is_valid_python(choice):", "R4.k"),
+    Variant("first-line-of-an-empty-match", "FIRE", "pattern_matching",
+            "{(match.string.splitlines() or [''])[0]}", "{match.string.splitlines()[0]}", "R4.k"),
     Variant("find-spec-handles-import-error-only", "FIRE", "tracing",
             "            except (ImportError, ValueError):  # ValueError: e.g. __main__.__spec__ is None", "            except ImportError:", "R4.j"),
     Variant("foreign-module-parsed-outside-handler", "FIRE", "tracing",
